@@ -273,7 +273,7 @@ func c18Docs(r vlib.Rnd, n int) []any {
 }
 
 var c18Work = &vlib.Check{
-	Prop: "C18", Name: "workloads", Quick: 240, Thorough: 16000,
+	Prop: "C18", Name: "workloads", Quick: 360, Thorough: 16000,
 	Oracle: c18Oracle, Inner: c18Run,
 	Gen: func(t *rapid.T) *vlib.Case {
 		r := vlib.RapidRnd{T: t}
